@@ -5,7 +5,7 @@ From Centro Require Import Base.Sx Base.EmdBase Spec.Emd Model.Emd Model.EmdCert
   Proofs.EmdDuality Proofs.EmdScaled Proofs.EmdModel Proofs.EmdSsp Proofs.EmdCertModel Proofs.EmdMetric
   Proofs.EmdFuel Proofs.EmdHeap Proofs.EmdTransform Proofs.EmdHeapPos Proofs.EmdHeapOrd Proofs.EmdPotential
   Proofs.EmdMcfCert Proofs.EmdHeapMem Proofs.EmdDijkstra Proofs.EmdDijkstraInit
-  Proofs.EmdTight Proofs.EmdGhost Proofs.EmdCspPost Proofs.EmdPairAddr Proofs.EmdGraphShape Proofs.EmdAugment Proofs.EmdRun Proofs.EmdConserve Proofs.EmdConserveRun.
+  Proofs.EmdTight Proofs.EmdGhost Proofs.EmdCspPost Proofs.EmdPairAddr Proofs.EmdGraphShape Proofs.EmdAugment Proofs.EmdRun Proofs.EmdConserve Proofs.EmdConserveRun Proofs.EmdIndex Proofs.EmdOptimal.
 From Centro Require Import Model.EmdMcf.
 Import ListNotations.
 Open Scope Z_scope.
@@ -546,3 +546,37 @@ Print Assumptions C10_caps_flow_conserved.
    x_caps_consistent (the returned x lists carry the same net flow), mcf_no_fail_if_flag_clear,
    read_back_bookkeeping, artificial_node_unused.  So the suffix _partial stays and
    C10_model_emd_correct keeps the in-model certificate. *)
+
+(* ------------------------------------------------------------------------------------------------
+   Round 11.  C10_mcf_model_optimal_if_A_idle (no _partial): for every graph with non-negative costs
+   and in-range targets and balanced supplies, when the flagged run of the line-level solver ends in
+   Done with the flag clear (the hypothesis the correspondence evaluates per case: never set), the
+   capacity flow indexed by arcs (capflow: arc k gets the capacity of its own backward entry,
+   caps_flow_indexing) is a MINIMUM-COST flow: non-negative, outflow - inflow = supply at every node,
+   and no non-negative flow with the same balances is cheaper (C10_mcf_cert_optimal instantiated with
+   the ghost potentials).  About the capacities, not yet about the returned x lists
+   (x_caps_consistent is open). *)
+Theorem C10_mcf_model_optimal_if_A_idle : forall nv c e st fl, length c = nv ->
+  (forall l tc, In l c -> In tc l -> (fst tc < nv)%nat /\ 0 <= snd tc) ->
+  length e = nv -> zsum e = 0 ->
+  mcf_iter_f ssp_levels (mcf_init e c) false = (MDone st, fl) -> fl = false ->
+  let sk := sk_of c in
+  let f := capflow c (m_rb st) in
+  (forall k, In k (idx sk) -> 0 <= f k) /\
+  (forall v, (v < nv)%nat -> gout sk f v = nz e v) /\
+  forall g, (forall k, In k (idx sk) -> 0 <= g k) -> (forall v, (v < nv)%nat -> gout sk g v = nz e v) ->
+            gcost sk f <= gcost sk g.
+Proof. exact mcf_model_optimal_if_A_idle. Qed.
+Print Assumptions C10_mcf_model_optimal_if_A_idle.
+
+Theorem C10_caps_flow_indexing : forall nv c, length c = nv ->
+  (forall l tc, In l c -> In tc l -> (fst tc < nv)%nat /\ 0 <= snd tc) ->
+  forall rb pi rf v, ghost nv c pi rf rb ->
+  gout (sk_of c) (capflow c rb) v = outflow_c nv rb v - inflow rb v.
+Proof. exact gout_capflow. Qed.
+Print Assumptions C10_caps_flow_indexing.
+
+(* STILL OPEN (named): x_caps_consistent / read_back_bookkeeping (the x lists that are returned and
+   read back carry the capacity flow), mcf_no_fail_if_flag_clear, artificial_node_unused — the last
+   one is FALSE for the real int32 code when max(C) = 2^31-1 (maxC + 1 wraps; candidate finding
+   C10-cand-2: the solver never returns) and is only meaningful with max(C) <= 2^31-2. *)
